@@ -172,6 +172,9 @@ def run(ck, F, tier):
         # precondition, which the interval domain cannot derive; the panic inventory is therefore run on the release MIR only, as in C16
         PA = panicfree.run_inventory(s16, F, [c16.DB + 'deblock'], mech, scope=('deblock::',), floors={'sites': 80, 'functions': 12})
         panicfree.run_termination(s16, F, PA, 8)
+    # a decoded picture has width >= 1 and height >= 1: into_width_and_height gives no size to a custom format with a zero dimension (C06's rule S, re-run here)
+    from . import c06_state
+    c06_state.rule_s(Scoped(ck, 'C06.'), F)
     ck.rule('S', 'Picture.quantizer is a 5-bit field (0..31) at both construction sites, so QUANT_TO_STRENGTH[quantizer] is in range')
     name = 'h263_rs::parser::picture::decode_picture::{closure#0}'
     Tp = Table(F, name)
